@@ -1,4 +1,4 @@
-(* Log compaction (server/aof.go:1912-2109): RewriteAofFile (rotation), findRewriteAofFiles, loadRewriteAofFiles,
+(* Log compaction (server/aof.go:1918-2122): RewriteAofFile (rotation), findRewriteAofFiles, loadRewriteAofFiles,
    clearRewriteAofFiles as the exact ORDERED list of file-system mutations, over the directory model of AofLoad.v.
    [has_lock] (LockDB.HasLock, db.go:2913-2979, evaluated against the live engine state) is a parameter. *)
 From Coq Require Import List NArith ZArith Bool Lia PeanoNat.
@@ -82,3 +82,81 @@ End Compaction.
    whose hold still exists *)
 Definition has_lock_of (live : list bytes) (b : bytes) (v : option bytes) : bool :=
   existsb (bytes_eqb (mark_rewrited b)) live.
+
+(* ------------------------------------------------------------------ the entry guard of rewriteAofFiles (aof.go:1970-1988)
+   Aof.isRewriting / Aof.isWaitRewite as a state machine: idle = (false,false), rewriting = (true,_),
+   wait-rewrite = (false,true).  [g_active] is a ghost counter: compaction goroutines past the guard and not yet returned.
+   [on_rewriting] is a SOURCE SWITCH read from the text of rewriteAofFiles by checks/C16.py: the entry guard tests
+   self.isRewriting (true, the code as it is) or something else (false: modelled as the other flag, isWaitRewite). *)
+Record guard := mkguard { g_rewriting : bool; g_wait : bool; g_active : nat }.
+Definition g_idle : guard := mkguard false false 0.
+
+Inductive gevent :=
+| GRequest    (* a `go self.rewriteAofFiles()` reaches its entry: RewriteAofFile(true) (size threshold in PushLock, admin
+                 command, PushLock without open file), LoadAndInit / Load, the consistency barrier of a follower *)
+| GDefer      (* RewriteAofFile(false) (follower rotation): isWaitRewite = true, no compaction requested yet *)
+| GBarrier    (* replication.go: isWaitRewite = false when the barrier command has been issued *)
+| GFinish.    (* the deferred function of a running compaction (after clearRewriteAofFiles returned): isRewriting = false *)
+
+Definition g_blocked (on_rewriting : bool) (g : guard) : bool := if on_rewriting then g_rewriting g else g_wait g.
+
+Definition gstep (on_rewriting : bool) (g : guard) (e : gevent) : guard :=
+  match e with
+  | GRequest => if g_blocked on_rewriting g then g else mkguard true false (S (g_active g))
+  | GDefer => mkguard (g_rewriting g) true (g_active g)
+  | GBarrier => mkguard (g_rewriting g) false (g_active g)
+  | GFinish => match g_active g with O => g | S n => mkguard false (g_wait g) n end
+  end.
+
+Definition grun (on_rewriting : bool) (evs : list gevent) (g : guard) : guard := fold_left (gstep on_rewriting) evs g.
+
+(* the observable history: which requests started a compaction, which compactions finished *)
+Inductive gmark := GStarted | GFinished.
+Definition gmark_of (on_rewriting : bool) (g : guard) (e : gevent) : list gmark :=
+  match e with
+  | GRequest => if g_blocked on_rewriting g then [] else [GStarted]
+  | GFinish => match g_active g with O => [] | S _ => [GFinished] end
+  | _ => []
+  end.
+Fixpoint glog (on_rewriting : bool) (evs : list gevent) (g : guard) : list gmark :=
+  match evs with
+  | [] => []
+  | e :: tl => gmark_of on_rewriting g e ++ glog on_rewriting tl (gstep on_rewriting g e)
+  end.
+(* Started and Finished alternate, beginning with [expect_start] *)
+Fixpoint alternates (expect_start : bool) (l : list gmark) : bool :=
+  match l with
+  | [] => true
+  | GStarted :: tl => expect_start && alternates false tl
+  | GFinished :: tl => negb expect_start && alternates true tl
+  end.
+
+(* ------------------------------------------------------------------ busy compaction: appends while it runs
+   The files a mutation writes (or moves). *)
+Definition touches (m : mutation) : list fname :=
+  match m with MPut f _ => [f] | MRemove f => [f] | MRename f g => [f; g] end.
+
+(* footprint of a compaction that started while the current append file was [cur] (after the rotation): the tmp pair,
+   the rewrite pair and the append files with a SMALLER index *)
+Definition local_file (cur : N) (f : fname) : bool :=
+  match f with
+  | FRewrite | FRewriteDat | FTmp | FTmpDat => true
+  | FAppend i | FAppendDat i => i <? cur
+  end.
+
+(* what the rest of the server does to the directory while a compaction runs: the flushed appends go to the current file
+   (index >= cur: PushLock/AppendLock write self.aofFile, RewriteAofFile only ever increases aofFileIndex), a rotation
+   creates the next one *)
+Definition foreign_mut (cur : N) (m : mutation) : bool :=
+  match m with
+  | MPut (FAppend i) _ | MPut (FAppendDat i) _ => cur <=? i
+  | _ => false
+  end.
+
+Definition dir_equiv (d1 d2 : dir) : Prop := forall f, dget d1 f = dget d2 f.
+
+(* interleavings of two mutation lists *)
+Inductive merge {A : Type} : list A -> list A -> list A -> Prop :=
+| merge_nil : merge [] [] []
+| merge_l x l r m : merge l r m -> merge (x :: l) r (x :: m)
+| merge_r x l r m : merge l r m -> merge l (x :: r) (x :: m).
